@@ -72,6 +72,19 @@ def corpus_project2():
     ]}
 
 
+def corpus_project3():
+    """time limits: timeout 1 with a 2.2 s sleep (limit in force -> TIMEOUT; multiplier <= 0 -> no limit), timeout 0 / -1
+    (never a limit), a quick test with timeout 1, the default timeout"""
+    return {'tests': [
+        mk_test(0, timeout=1, sleep='2.2'),
+        mk_test(1, timeout=0, sleep='0.3'),
+        mk_test(2, timeout=-1, sleep='0.3', codes=[1]),
+        mk_test(3, timeout=1, sleep='0.02'),
+        mk_test(4, sleep='0.05'),
+        mk_test(5, timeout=1, sleep='2.2', should_fail=True, proto='tap', text=O.TAP_KINDS['pass']),
+    ]}
+
+
 def gen_project(rng, adversarial=False):
     n = rng.randint(2, 8)
     pser = rng.choice([0.0, 0.2, 0.4, 0.7])
@@ -187,11 +200,21 @@ def sel_flags(inv):
     return a + list(inv.get('flags') or []) + list(inv['args'])
 
 
+def tmult(inv):
+    """--timeout-multiplier of an invocation: a number, or None when the option is not given (default 0.3)"""
+    return inv.get('tmult', 0.3)
+
+
+def tm_flag(inv):
+    m = tmult(inv)
+    return [] if m is None else ['--timeout-multiplier=%s' % (('%g' % m))]
+
+
 def command_line(inv, k=0):
     # with inv['env'] the number of jobs comes from MESON_TESTTHREADS / MESON_NUM_PROCESSES (no -j)
     nj = [] if inv.get('env') else ['--num-processes', str(inv['jobs'])]
     return ['test', '-C', 'b', '--no-rebuild'] + nj + ['--repeat', str(inv['repeat']),
-            '--maxfail', str(inv['maxfail']), '-t', '0.3', '--logbase', 'L%d' % k] + sel_flags(inv)
+            '--maxfail', str(inv['maxfail'])] + tm_flag(inv) + ['--logbase', 'L%d' % k] + sel_flags(inv)
 
 
 def shown_command(inv):
@@ -268,12 +291,12 @@ def tdef_str(t):
 def run_cli(ctx, built, thorough, only=None):
     rng = ctx.rng
     scratch = ctx.mkscratch()
-    nproj = 60 if thorough else 6
+    nproj = 60 if thorough else 7
     ninv = 25 if thorough else 8
     if only is not None:
         projs = [only['project']]
     else:
-        projs = [corpus_project(), corpus_project2()] + [gen_project(rng, adversarial=(thorough and i % 2 == 1) or (not thorough and i == 5)) for i in range(2, nproj)]
+        projs = [corpus_project(), corpus_project2(), corpus_project3()] + [gen_project(rng, adversarial=(thorough and i % 2 == 1) or (not thorough and i == 5)) for i in range(3, nproj)]
     dirs = [os.path.join(scratch, 'proj%d' % i) for i in range(len(projs))]
     setups = pmap(lambda a: write_project(*a), list(zip(dirs, projs)))
     for r, d in zip(setups, dirs):
@@ -285,6 +308,10 @@ def run_cli(ctx, built, thorough, only=None):
         invs = [only['invocation']] if only is not None else [gen_invocation(rng, proj) for _ in range(ninv)]
         if only is None and pi == 0:
             invs[0] = {'jobs': 3, 'repeat': 1, 'maxfail': 0, 'include': [], 'exclude_suites': [], 'exclude': [], 'args': [], 'slice': ''}
+        if only is None and pi == 2:
+            # time limits: no multiplier (control: the 2.2 s sleepers time out), multipliers <= 0 (no limit), large and small ones
+            b3 = {'jobs': 8, 'repeat': 1, 'maxfail': 0, 'include': [], 'exclude_suites': [], 'exclude': [], 'args': [], 'slice': ''}
+            invs = [dict(b3, tmult=m) for m in (None, 0, -1, 50, 0.5, -0.0)]
         if only is None and pi == 0:
             # the option layer: a non-positive --num-processes must be refused at option parsing;
             # MESON_TESTTHREADS / MESON_NUM_PROCESSES of any content must still let the tests run
@@ -477,7 +504,16 @@ def run_cli(ctx, built, thorough, only=None):
                 continue
             t = byname[nm]
             rc = code_rc(t['codes'][min(it, len(t['codes'])) - 1])
-            w = 't' if t['will_timeout'] else 'x'
+            w = O.expected_wait(t['timeout'], tmult(inv), float(t['sleep']))
+            lim = O.documented_limit(t['timeout'], tmult(inv))
+            how = 'timeout %s x multiplier %s = %s' % ('30 (default)' if t['timeout'] is None else t['timeout'],
+                                                      'absent' if tmult(inv) is None else tmult(inv), 'no limit' if lim is None else '%g s' % lim)
+            if w == 'x' and e['result'] == 'TIMEOUT':
+                viol('test %s sleeps %s s and is reported TIMEOUT although %s' % (nm, t['sleep'], how))
+            if w == 't' and e['result'] not in ('TIMEOUT', 'INTERRUPT'):
+                viol('test %s sleeps %s s and is reported %s although the limit in force is %s' % (nm, t['sleep'], e['result'], how))
+            if w is None:
+                continue            # too close to call: not judged
             if e['result'] == 'INTERRUPT' and cut:
                 w = 'c'
             if t['proto'] in ('exitcode', 'gtest') and t['expected_exitcode'] is None:
@@ -585,6 +621,7 @@ def run_cli(ctx, built, thorough, only=None):
             cov['test:is_parallel=false'] += (not t['par'])
             cov['test:should_fail'] += bool(t['should_fail'])
             cov['test:timeout(will time out)'] += bool(t['will_timeout'])
+            cov['test:timeout kw <= 0'] += (t['timeout'] is not None and t['timeout'] <= 0)
             cov['test:priority!=0'] += (t['prio'] != 0)
             cov['test:suite kw'] += bool(t['suites'])
             cov['test:expected_exitcode'] += (t['expected_exitcode'] is not None)
@@ -615,6 +652,8 @@ def run_cli(ctx, built, thorough, only=None):
         for f in inv.get('flags') or []:
             cov['run:' + f] += 1
         cov['run:jobs from environment variables'] += bool(inv.get('env'))
+        cov['run:--timeout-multiplier <= 0'] += (tmult(inv) is not None and tmult(inv) <= 0)
+        cov['run:no --timeout-multiplier'] += (tmult(inv) is None)
         cov['run:non-positive -j (must be rejected)'] += bool(inv.get('probe'))
     for (nm_, res_), c_ in sorted(result_cov.items()):
         cov['result:%s:%s' % (nm_, res_)] = c_
